@@ -10,7 +10,7 @@ else
 fi
 trap 'git -C /repo checkout -- . ; git -C /repo clean -fdq -e cmd/participle/participle >/dev/null 2>&1' EXIT
 for id in "$@"; do
-  out=$(cd /verif && VERIF_NOEVIDENCE=1 ./check "$id" quick 2>&1)
+  out=$(cd /verif && VERIF_NOEVIDENCE=1 ./check "$id" quick 2>&1 | tr -d "\000"; exit ${PIPESTATUS[0]})
   code=$?
   echo "$id exit=$code $(echo "$out" | grep -m1 -A1 'VIOLATION' | tr '\n' ' ' | cut -c1-400)"
   echo "$out" | tail -1
